@@ -19,6 +19,7 @@ import aioslsk.transfer.manager as tm
 import aioslsk.transfer.model as tmodel
 from aioslsk.events import EventBus
 from aioslsk.exceptions import ConnectionWriteError, PeerConnectionError
+from aioslsk.network.connection import PeerConnectionType
 from aioslsk.protocol.messages import PeerTransferReply
 from aioslsk.settings import Settings
 from aioslsk.transfer.manager import TransferManager, _RequestFlag
@@ -302,6 +303,21 @@ class FakeFileConnection:
         await self.release
         if callback is not None:
             callback(b'x' * self.net.filesize)
+
+    # --- the same object as the uploader's file connection arriving for a download ---------------
+    connection_type = PeerConnectionType.FILE
+    hostname, port = '10.0.0.9', 2234
+    ticket = 0
+
+    async def receive_transfer_ticket(self):
+        await LAT.wait('file_connection.receive_transfer_ticket')
+        return self.ticket
+
+    async def receive_file(self, handle, filesize, callback=None):
+        """the download sits in a pending read until the harness releases it (then all bytes arrive)"""
+        await self.release
+        if callback is not None and isinstance(filesize, int):
+            callback(b'x' * filesize)
 
     async def receive_until_eof(self, raise_exception=True):
         return None
